@@ -123,7 +123,7 @@ func runAcceptSuite(seed uint64, n int, out *Out, stats *Stats) {
 				}
 				amount := r.U64n(u.value - set.Fee + 1)
 				rc := w.wallets[r.Intn(5)]
-				outs := []*JOutput{{rc.Addr, r.Chance(1, 4), amount}}
+				outs := []*JOutput{{rc.Addr, r.Chance(1, 2), amount / 2}, {rc.Addr, false, amount - amount/2}}
 				if rest := u.value - set.Fee - amount; rest > 0 {
 					outs = append(outs, &JOutput{snd.Addr, false, rest})
 				}
@@ -152,6 +152,17 @@ func runAcceptSuite(seed uint64, n int, out *Out, stats *Stats) {
 		}
 		// the block under test: the pool holds anything an honest pool may hold
 		var kinds []string
+		if r.Chance(1, 3) {
+			// an order-dependent pair: both pooled, only one order can be produced
+			w.rec = nil
+			if y, p2 := w.findSwapPair(A); y != nil {
+				t1 := w.build(&txPlan{ins: []spendable{*y}, outs: []*JOutput{{y.owner.Addr, false, y.value - set.Fee - 1}}, ts: w.now})
+				t2 := w.build(&txPlan{ins: []spendable{*p2}, outs: []*JOutput{{p2.owner.Addr, true, p2.value - set.Fee - 1}}, ts: w.now})
+				A.Pool.AddTransaction(t1, "a", "b")
+				A.Pool.AddTransaction(t2, "a", "b")
+				kinds = append(kinds, "yield-swap-pair")
+			}
+		}
 		for j := 0; j < 1+r.Intn(4); j++ {
 			tx, kind := w.genTx(A)
 			before := len(A.Pool.Transactions())
